@@ -53,28 +53,30 @@ type ViolationReport struct {
 
 // WorkerOutput is what a worker writes for the driver.
 type WorkerOutput struct {
-	Property   string            `json:"property"`
-	Worker     int               `json:"worker"`
-	Stats      *Stats            `json:"stats"`
-	Classes    []string          `json:"classes"`
-	NonTrivial []string          `json:"nontrivial"`
-	Shapes     int               `json:"shapes"`
-	ShapeKeys  []string          `json:"shape_keys"`
-	Violations []ViolationReport `json:"violations"`
-	KnownHits  map[string]int    `json:"known_hits"`
-	KnownMsgs  map[string]string `json:"known_msgs"`
-	Samples    []json.RawMessage `json:"samples"`
-	LogHashes  map[string]string `json:"log_hashes,omitempty"`
-	Infra      string            `json:"infra"`
-	WallS      float64           `json:"wall_s"`
-	ByProfile  map[string]int    `json:"by_profile"`
-	Replayed   *ReplayOutcome    `json:"replayed,omitempty"`
-	Rechecked  int               `json:"rechecked"`
-	Survey     map[string][2]any `json:"survey,omitempty"` // full signature -> (count, first message)
-	Goroutines int               `json:"goroutines_at_end"`
-	HeapMB     int               `json:"heap_mb_at_end"`
-	CalibHit   bool              `json:"calibration_hit"`
-	RaceSeen   int               `json:"race_reports_seen"`
+	Property        string            `json:"property"`
+	Worker          int               `json:"worker"`
+	Stats           *Stats            `json:"stats"`
+	Classes         []string          `json:"classes"`
+	NonTrivial      []string          `json:"nontrivial"`
+	Shapes          int               `json:"shapes"`
+	ShapeKeys       []string          `json:"shape_keys"`
+	Violations      []ViolationReport `json:"violations"`
+	KnownHits       map[string]int    `json:"known_hits"`
+	KnownMsgs       map[string]string `json:"known_msgs"`
+	Samples         []json.RawMessage `json:"samples"`
+	LogHashes       map[string]string `json:"log_hashes,omitempty"`
+	Infra           string            `json:"infra"`
+	WallS           float64           `json:"wall_s"`
+	ByProfile       map[string]int    `json:"by_profile"`
+	Replayed        *ReplayOutcome    `json:"replayed,omitempty"`
+	Rechecked       int               `json:"rechecked"`
+	RecheckMismatch int               `json:"recheck_mismatches"`
+	Nondet          string            `json:"nondeterminism_example"`
+	Survey          map[string][2]any `json:"survey,omitempty"` // full signature -> (count, first message)
+	Goroutines      int               `json:"goroutines_at_end"`
+	HeapMB          int               `json:"heap_mb_at_end"`
+	CalibHit        bool              `json:"calibration_hit"`
+	RaceSeen        int               `json:"race_reports_seen"`
 }
 
 // ReplayFile is the on-disk format of a violation (DESIGN appendix B).
@@ -308,7 +310,7 @@ func RunWorker(t *testing.T, cfg *WorkerConfig) *WorkerOutput {
 					// the second execution of the same plan shows a violation the
 					// first one did not: report it
 					res = again
-				} else if nondet == "" {
+				} else if out.RecheckMismatch++; nondet == "" {
 					// Not fatal yet: a library that keeps state across requests
 					// makes runs depend on earlier runs; if that breaks a property
 					// a later run reports it. Without any violation this is
@@ -380,8 +382,12 @@ func RunWorker(t *testing.T, cfg *WorkerConfig) *WorkerOutput {
 		out.Violations = append(out.Violations, rep)
 		break
 	}
-	if nondet != "" && len(out.Violations) == 0 && out.Infra == "" {
-		out.Infra = nondet
+	// A few mismatching re-executions are what a library that picks names at
+	// random (temporary files that a failed clean-up leaves visible) looks like;
+	// many mean the harness or the library is not reproducible.
+	out.Nondet = nondet
+	if nondet != "" && len(out.Violations) == 0 && out.Infra == "" && out.RecheckMismatch > 3 && out.RecheckMismatch*10 > out.Rechecked {
+		out.Infra = fmt.Sprintf("%d of %d re-executed runs gave a different event log; first: %s", out.RecheckMismatch, out.Rechecked, nondet)
 	}
 	var ms runtime.MemStats
 	runtime.ReadMemStats(&ms)
@@ -405,6 +411,16 @@ func hashedKeys(m map[string]int) []string {
 }
 
 func firstDiff(a, b []string) string {
+	keep := func(l []string) []string {
+		var out []string
+		for _, s := range l {
+			if !strings.Contains(s, " disk ") { // not hashed either (see Log.Hash)
+				out = append(out, s)
+			}
+		}
+		return out
+	}
+	a, b = keep(a), keep(b)
 	for i := 0; i < len(a) && i < len(b); i++ {
 		if a[i] != b[i] {
 			return fmt.Sprintf("line %d:\n  first:  %s\n  second: %s", i, a[i], b[i])
